@@ -25,6 +25,12 @@ func init() {
 			c.ruleChildKeysMerge()
 			c.ruleChildRecreate()
 			c.ruleSortedKeys()
+			c.ruleChildInPlace()
+			c.ruleOverlayBookkeeping()
+			c.min("R-LIMITKEYS", 1)
+			c.min("R-ALLDELETED", 1)
+			c.min("R-OVERLAY/namespace", 1)
+			c.min("R-CHILDINPLACE", 1)
 			c.min("R-SORTEDKEYS", 2)
 			c.min("R-OVERLAY/prefixkeys", 2)
 			c.min("R-OVERLAY/O1", 9)
